@@ -18,6 +18,13 @@ var intrinsicWrites = map[string][]string{}
 func init() {
 	intrinsics = map[string]intrinsic{
 		"(" + modPrefix + "errs.Code).F": intrCodeF,
+		// sequential model: locks are no-ops (assumption: no other goroutine touches the state)
+		"(*sync.RWMutex).Lock":    intrNoop,
+		"(*sync.RWMutex).Unlock":  intrNoop,
+		"(*sync.RWMutex).RLock":   intrNoop,
+		"(*sync.RWMutex).RUnlock": intrNoop,
+		"(*sync.Mutex).Lock":      intrNoop,
+		"(*sync.Mutex).Unlock":    intrNoop,
 	}
 	intrinsicWrites["("+modPrefix+"errs.Code).F"] = []string{"F errs.Err.Code_", "F errs.Err.message"}
 }
@@ -35,4 +42,8 @@ func intrCodeF(f *Frame, callee *ssa.Function, args []Val, pc string, st *State,
 	msg := vc.freshConst("errmsg", "Str")
 	f.store(l, fmt.Sprintf("(%s %s %s)", q("mk "+name), args[0].T, msg), st, pc, posOf(ins, f))
 	return Val{T: r, Typ: rt}, pc
+}
+
+func intrNoop(f *Frame, callee *ssa.Function, args []Val, pc string, st *State, ins ssa.Value) (Val, string) {
+	return Val{}, pc
 }
